@@ -55,6 +55,13 @@ func main() {
 		props.DebugExpand(os.Args[2], len(os.Args) > 3)
 		return
 	}
+	if len(os.Args) >= 3 && os.Args[1] == "--findings" {
+		if err := props.WriteFindingWitnesses(os.Args[2]); err != nil {
+			fmt.Fprintln(os.Stderr, err)
+			os.Exit(1)
+		}
+		return
+	}
 	if len(os.Args) >= 3 && os.Args[1] == "--shrink" {
 		props.Shrink(os.Args[2])
 		return
